@@ -127,7 +127,9 @@ def build_cases(tier, seed):
                     exp.append((t, uid, zlib.crc32(img)))
                     uid += 1
                     if k < 2:
-                        stream += blf.unknown_object(ty, size, body) + (b'\0' * (size % 4) if padded else b'')
+                        # an unknown object is skipped by its objectSize alone: whatever its headerSize / headerVersion fields say
+                        hs = [16, 32, 40, 0, 0xffff][nunk % 5]
+                        stream += blf.unknown_object(ty, size, body, hs=hs, hv=[1, 0, 2][nunk % 3]) + (b'\0' * (size % 4) if padded else b'')
                 if variant in (3, 4, 5):
                     cs = rnd.choice([7, 16, 33]) if variant != 5 else 48 + 16 + rnd.choice([8, 24, 32])   # skip target lies in containers that are not decoded yet
                     sub += '+small-containers' if variant != 3 else ''
@@ -135,7 +137,7 @@ def build_cases(tier, seed):
                         sub = 'small-containers'
                 else:
                     cs = rnd.choice([len(stream), 64, 100, 1000, 5000])
-                cases.append(('unknown type=%d size=%d %s%s cs=%d' % (ty, size, sub, ' padded' if padded else '', cs), stream, exp, cs, 'unknown'))
+                cases.append(('unknown type=%d size=%d %s%s hs=%d cs=%d' % (ty, size, sub, ' padded' if padded else '', [16, 32, 40, 0, 0xffff][nunk % 5], cs), stream, exp, cs, 'unknown'))
                 nunk += 1
     return cases, nexh, len(fillers) - nexh, nunk + ntail
 
